@@ -1192,6 +1192,9 @@ func runC11(c *Ctx) {
 			nSess = map[string]int{"os": v, "req": v}
 		}
 	}
+	// first the cases that run in a child process: a server that panics there is an oracle failure with its input, whereas a panic in
+	// the in-process sessions below takes the family down
+	c11Prebuffered(c, work)
 	// warm up whatever the runtime opens lazily (epoll, /proc) before any baseline is taken
 	c11Run("os", false, false, c11Gen(rand.New(rand.NewSource(1))), 3, 0, true, work)
 	maxSess := nSess["req"]
